@@ -138,12 +138,9 @@ Outcome classify(const std::string &prop, const std::string &out, int status) {
             cls = "tsan:" + out.substr(b, e - b);
             while (!cls.empty() && cls.back() == ' ') cls.pop_back();
             for (auto &ch : cls) if (ch == ' ') ch = '-';
-            // the two access stacks
-            size_t s1 = out.find("#0", p), s2 = out.find("Previous ", p);
-            std::string f1 = first_ezc3d_fn(out, s1 == std::string::npos ? p : s1, s2 == std::string::npos ? out.size() : s2);
-            std::string f2 = s2 == std::string::npos ? "?" : first_ezc3d_fn(out, s2, out.size());
-            if (f2 < f1) std::swap(f1, f2);
-            fn = f1 + "|" + f2;
+            // which of the two accesses TSan shows first (and how far it can symbolise them) is not stable from run to
+            // run, so the key names the report class only; the functions go into the detail text
+            fn = "-";
         }
     } else if (WEXITSTATUS(status) == 71) { cls = "sig?"; // the crash handler itself crashed (heap too broken to report)
     } else cls = "exit" + tos(WEXITSTATUS(status));
